@@ -134,3 +134,75 @@ func VerifC11Cursors() {
 	}
 	vCover("done")
 }
+
+// VerifC11Concurrent: a FetchCursor that misses the cache (after an eviction,
+// a restart or a leadership change) runs concurrently with a SetCursor for the
+// same cursor under the exploring scheduler. The concurrent fetch may return
+// the old or the new offset; once both calls have returned, every later fetch
+// returns the offset of the SetCursor that succeeded — from the cache and with
+// the cache bypassed.
+func VerifC11Concurrent() {
+	vInstallCursorPublish()
+	dir := vTempDir()
+	s := vMkServer(dir)
+	s.metadata = newMetadataAPI(s)
+	s.cursors = newCursorManager(s)
+	a := &apiServer{Server: s}
+	s.api = a
+	s.config.CursorsStream.Partitions = 1
+	p := &partition{
+		Partition:   &proto.Partition{Stream: cursorsStream, Subject: "cur", Id: 0, Replicas: []string{"srv-a"}, Isr: []string{"srv-a"}, Leader: "srv-a", ReplicationFactor: 1},
+		log:         vCursorsLog(dir + "/cursors"),
+		srv:         s,
+		replicas:    map[string]struct{}{"srv-a": {}},
+		isr:         map[string]*replica{"srv-a": {offset: -1}},
+		commitCheck: make(chan struct{}, 1),
+		notify:      make(chan struct{}, 1),
+		consumers:   make(map[string]*groupMember),
+	}
+	st := newStream(cursorsStream, "cur", &proto.StreamConfig{}, vTimeZero(), s.config)
+	st.SetPartition(0, p)
+	s.metadata.streams[cursorsStream] = st
+	ctx := context.Background()
+	// history before the race: nothing, or a first SetCursor(3); another cursor exists in the log
+	vAssert(s.cursors.SetCursor(ctx, "foo", "other", 0, 9) == nil, "SetCursor succeeds")
+	old := int64(-1)
+	if vChoose(2) == 1 {
+		vAssert(s.cursors.SetCursor(ctx, "foo", "x", 0, 3) == nil, "SetCursor succeeds")
+		old = 3
+	}
+	s.cursors.BecomePartitionLeader() // the cache is empty: the next fetch reads the log
+	done := make(chan struct{}, 2)
+	var got int64
+	var gst, sst interface{}
+	vSchedExplore(vParam("preemptions", 1))
+	go func() {
+		g, stt := s.cursors.GetCursor(ctx, "foo", "x", 0)
+		got = g
+		if stt != nil {
+			gst = stt
+			vNote("concurrent FetchCursor failed: " + stt.Message())
+		}
+		done <- struct{}{}
+	}()
+	go func() {
+		if stt := s.cursors.SetCursor(ctx, "foo", "x", 0, 5); stt != nil {
+			sst = stt
+		}
+		done <- struct{}{}
+	}()
+	<-done
+	<-done
+	vSchedExplore(0)
+	vAssert(sst == nil, "SetCursor succeeds")
+	vAssert(gst == nil, "FetchCursor succeeds")
+	vAssert(got == old || got == 5, "a fetch concurrent with a set returns the old or the new offset")
+	after, stt := s.cursors.GetCursor(ctx, "foo", "x", 0)
+	vAssert(stt == nil, "FetchCursor succeeds")
+	vAssert(after == 5, "after both calls returned, FetchCursor returns the offset of the SetCursor that succeeded")
+	s.cursors.BecomePartitionLeader()
+	after, stt = s.cursors.GetCursor(ctx, "foo", "x", 0)
+	vAssert(stt == nil, "FetchCursor succeeds")
+	vAssert(after == 5, "and so does a fetch that bypasses the cache")
+	vCover("done")
+}
